@@ -37,6 +37,12 @@ var wallPrograms = []string{
 	"(let [a (atom 0)] (swap! a (fn [x] (spin x))))",
 	"(reduce (fn [acc x] (spin x)) 0 [1 2])",
 	"(mrec 0)",
+	// futures created by an EARLIER evaluation under another context (the waiter's context is not the creator's)
+	"(deref bgf)",
+	"(deref bgspin)",
+	"(try (deref bgf) (catch e (deref bgspin)) (finally (deref bgf)))",
+	"(map deref [bgf bgspin])",
+	"(let [f (future (deref bgf))] (deref f))",
 }
 
 const wallDefs = `(do
@@ -44,6 +50,8 @@ const wallDefs = `(do
  (def deep (fn [n] (if (< n 1) 0 (+ 1 (deep (- n 1))))))
  (def mspin (fn [n] (cond false 0 true (mspin (+ n 1)))))
  (defmacro mrec (fn [n] (list 'mrec (+ n 1))))
+ (def bgf (future (sleep 100000)))
+ (def bgspin (future (spin 0)))
  nil)`
 
 func (e *cancelWallEngine) generate(r *rng, n int, tier string, emit func(string)) {
@@ -69,7 +77,10 @@ func (e *cancelWallEngine) run(payload string) string {
 	if err != nil {
 		return "setup-error"
 	}
-	if _, err := lisp.EVAL(context.Background(), defs, env); err != nil {
+	// the definitions (and the two background futures) live under their own context, ended when the case is over
+	setupCtx, endSetup := context.WithCancel(context.Background())
+	defer endSetup()
+	if _, err := lisp.EVAL(setupCtx, defs, env); err != nil {
 		return "setup-error"
 	}
 	ast, err := lisp.READ(wallPrograms[p], nil, env)
